@@ -70,6 +70,9 @@ CLAIMS["C01"] = ("stateless model checking of the real code: exhaustive enumerat
 CLAIMS["C12"] = ("stateless model checking of the real code: delay-bounded placement of shutdown / last-reference drop / exit hook over the worker loop's iteration; weak-reference liveness after an explicit gc step",
     "For the retry / poll / throttle / timeout executors: shutdown(wait or not), dropping the last user reference (idle, while the worker is iterating, after a completed future, with a future still pending) and the library's exit hook are placed by the scheduler at every point of the worker loop (d<=3 sync-op granularity, d<=2 line granularity): the worker thread must have exited by the horizon and a pending future must still complete after the drop. Retention: for 10 executor / combinator kinds and the histories completed / failed / retried / cancelled while queued / cancelled in the delegate / timed out, weak references to the future, the callable, its arguments and its result must be dead after quiescence + gc.collect() while the executor lives.",
     "DESIGN.md section 6 C12; 'interpreter exit' = the library's registered exit hook invoked as a scheduled step (real interpreter finalisation cannot be scheduled)")
+CLAIMS["C20"] = ("explicit-state enumeration of event histories on the real executors with a stand-in metrics registry, plus delay-bounded schedule enumeration of concurrent histories",
+    "With a stand-in prometheus_client on the import path: every history of depth <=5 (6 thorough) over {submit, delegate finishes ok / fails, cancel, advance time past timeouts and back-offs, shutdown} for 9 executor kinds is executed; after every event (quiescent point) futures-in-progress, executors-in-use, retry-queue and throttle-queue gauges must equal the real pending / alive / queued numbers, no series may ever have gone negative, and at the end the future total / cancel / error, retry, poll, poll-error and shutdown-cancel counters must equal the event counts. Concurrent histories (worker, cancel at the instant a retry is due, one or two shutdown threads) are explored to d<=1 (2 thorough); all f_* combinators must return every gauge to zero.",
+    "DESIGN.md section 6 C20; the real prometheus_client is not installed, the registry is the checker's stand-in")
 NOT_YET = {}
 
 props = [json.loads(l) for l in open(os.path.join(HERE, "properties.jsonl"))]
